@@ -12,8 +12,11 @@ Validated here on the REAL code (this is the failing-input search, it does not n
     includes can be satisfied) for freshly scanned generated namespaces, for every *.gir in
     the repository and for the files produced by a write;
   * an AST-equality walk between the model that was written and the model read back.
-Tie of the Lean fragment model: generated Ty / parameter / callable values are written by the
-real GIRWriter and parsed by the real GIRParser and compared, as trees, with the model.
+Tie of the Lean fragment model: generated Ty / parameter / callable values (functions, methods,
+constructors, virtual methods, callbacks, signals) and member lists of records / unions (typed
+fields with array lengths, fields holding a callback, anonymous struct / union members) are written
+by the real GIRWriter and parsed by the real GIRParser and compared, as trees, with the model; the
+member- and callable-level write fixed point is also judged on the real code alone.
 """
 import copy
 import glob
@@ -301,7 +304,7 @@ class Canon(object):
                  nullable=bool(r.nullable and not r.not_nullable), skip=bool(r.skip))
         return d
 
-    def callable(self, f, tag):
+    def callable(self, f, tag, anonymous=False):
         ast = self.m.ast
         d = self.node_generic(f)
         d.update(tag=tag, name=f.name, throws=bool(f.throws), retval=self.retval(f.retval),
@@ -315,7 +318,8 @@ class Canon(object):
         if isinstance(f, ast.VFunction):
             d['invoker'] = _s(f.invoker)
         if isinstance(f, ast.Callback):
-            d['ctype'] = f.ctype if f.ctype != f.name else None
+            # the callback of a field is named after the field: its c:type is only written when it differs
+            d['ctype'] = f.ctype if not anonymous or f.ctype != f.name else None
         if isinstance(f, ast.Signal):
             d.update(when=_s(f.when), no_recurse=bool(f.no_recurse), detailed=bool(f.detailed),
                      action=bool(f.action), no_hooks=bool(f.no_hooks), emitter=_s(f.emitter))
@@ -345,7 +349,7 @@ class Canon(object):
                 d = self.docs(f)
                 d.update(k='field-callback', name=f.name, introspectable=bool(f.introspectable) and not f.skip,
                          version=_s(f.version), deprecated=_s(f.deprecated), stability=_s(f.stability),
-                         callback=self.callable(an, 'callback'))
+                         callback=self.callable(an, 'callback', anonymous=True))
                 return d
             return {'k': 'field-anon', 'node': self.node(an)}
         d = self.node_generic(f)
@@ -1833,9 +1837,9 @@ class FragGen(object):
 
     def callable(self):
         rng = self.rng
-        klass = rng.choice(['function'] * 5 + ['callback', 'callback', 'vfunction'])
+        klass = rng.choice(['function'] * 5 + ['callback', 'callback', 'vfunction', 'signal', 'signal'])
         tag = {'function': rng.choice(['function', 'function', 'function-inline', 'method', 'method-inline', 'constructor']),
-               'callback': 'callback', 'vfunction': 'virtual-method'}[klass]
+               'callback': 'callback', 'vfunction': 'virtual-method', 'signal': 'glib:signal'}[klass]
         n = rng.choice([0, 1, 2, 2, 3, 4, 6])
         names = []
         for i in range(n):
@@ -1861,8 +1865,16 @@ class FragGen(object):
                  deprecated=self.ostr(['1.2', '3.0'], 0.8), stability=self.ostr(['Stable', 'Unstable'], 0.85),
                  finish_func=self.ostr(['frob_finish'], 0.9), sync_func=self.ostr(['frob_sync'], 0.93),
                  async_func=self.ostr(['frob_async'], 0.93), symbol=None, shadowed_by=None, shadows=None, moved_to=None,
-                 set_property=None, get_property=None, invoker=None, ctype=None)
-        if tag in ('method', 'method-inline', 'virtual-method') or self.coin(self.wild):
+                 set_property=None, get_property=None, invoker=None, ctype=None,
+                 when=None, no_recurse=False, detailed=False, action=False, no_hooks=False, emitter=None)
+        if klass == 'signal':
+            d.update(when=self.ostr(['first', 'last', 'cleanup', 'bogus'], 0.3), no_recurse=self.coin(0.25),
+                     detailed=self.coin(0.25), action=self.coin(0.25), no_hooks=self.coin(0.25),
+                     emitter=self.ostr(['frob', 'do_it'], 0.7), name=rng.choice(['clicked', 'row-added', 'notify-me', 'é']))
+            if not self.coin(self.wild):
+                # `_write_signal` writes neither throws nor the async attributes; no scanner code path sets them
+                d.update(throws=False, finish_func=None, sync_func=None, async_func=None)
+        if tag in ('method', 'method-inline', 'virtual-method') or (self.coin(self.wild) and klass != 'signal'):
             d['instance'] = self.param('self', names)
             d['instance']['closure'] = d['instance']['destroy'] = None
         if klass == 'function':
@@ -1871,8 +1883,8 @@ class FragGen(object):
                      set_property=self.ostr(['prop'], 0.92), get_property=self.ostr(['prop'], 0.92))
         elif klass == 'vfunction':
             d['invoker'] = self.ostr(['do_it', ''], 0.5)
-        else:
-            d['ctype'] = rng.choice([None, 'FooDoIt', d['name'], 'FooCb'])
+        elif klass == 'callback':
+            d['ctype'] = rng.choice([None, 'FooDoIt', d['name'], 'FooCb'] + ([''] if self.coin(self.wild) else []))
         return d
 
 
@@ -2001,6 +2013,11 @@ class RealFrag(object):
             f.is_inline = j['tag'].endswith('-inline')
         elif j['klass'] == 'callback':
             f = ast.Callback(j['name'], ret, params, j['throws'], j['ctype'])
+        elif j['klass'] == 'signal':
+            f = ast.Signal(j['name'], ret, params, when=j['when'], no_recurse=j['no_recurse'], detailed=j['detailed'],
+                           action=j['action'], no_hooks=j['no_hooks'])
+            f.emitter = j['emitter']
+            f.throws = j['throws']
         else:
             f = ast.VFunction(j['name'], ret, params, j['throws'])
             f.invoker = j['invoker']
@@ -2021,10 +2038,10 @@ class RealFrag(object):
         if tag in ('function', 'function-inline', 'callback'):
             ns.append(f)
             return ns, [tag]
-        if tag == 'virtual-method':
+        if tag in ('virtual-method', 'glib:signal'):
             c = ast.Class('Holder', None, ctype='FooHolder', gtype_name='FooHolder', get_type='foo_holder_get_type',
                           c_symbol_prefix='holder')
-            c.virtual_methods.append(f)
+            (c.virtual_methods if tag == 'virtual-method' else c.signals).append(f)
             ns.append(c)
             return ns, ['class', tag]
         rec = ast.Record('Holder', ctype='FooHolder')
@@ -2133,7 +2150,7 @@ class RealFrag(object):
     # ---- reading
     def wrap(self, tree, klass):
         inner = tree_to_xml(tree)
-        if tree['tag'] == 'virtual-method':
+        if tree['tag'] in ('virtual-method', 'glib:signal'):
             inner = ('<class name="Holder" c:symbol-prefix="holder" c:type="FooHolder" glib:type-name="FooHolder" '
                      'glib:get-type="foo_holder_get_type">%s</class>' % inner)
         elif tree['tag'] in ('method', 'method-inline', 'constructor'):
@@ -2205,6 +2222,10 @@ class RealFrag(object):
                  moved_to=f.moved_to if fn else None, set_property=f.set_property if fn else None,
                  get_property=f.get_property if fn else None, invoker=f.invoker if klass == 'vfunction' else None,
                  ctype=f.ctype if klass == 'callback' else None)
+        sig = klass == 'signal'
+        d.update(when=f.when if sig else None, no_recurse=bool(f.no_recurse) if sig else False,
+                 detailed=bool(f.detailed) if sig else False, action=bool(f.action) if sig else False,
+                 no_hooks=bool(f.no_hooks) if sig else False, emitter=f.emitter if sig else None)
         return d
 
     def parse(self, tree, klass, n):
@@ -2216,7 +2237,9 @@ class RealFrag(object):
             p.parse_tree(ET.ElementTree(ET.fromstring(self.wrap(tree, klass).encode('utf-8'))))
             ns = p.get_namespace()
             tag = tree['tag']
-            if tag == 'virtual-method':
+            if tag == 'glib:signal':
+                fobj = ns.get('Holder').signals[0]
+            elif tag == 'virtual-method':
                 fobj = ns.get('Holder').virtual_methods[0]
             elif tag == 'constructor':
                 fobj = ns.get('Holder').constructors[0]
@@ -2247,7 +2270,8 @@ def mutate_tree(rng, tree):
     names = ['name', 'c:type', 'zero-terminated', 'fixed-size', 'length', 'direction', 'caller-allocates', 'nullable',
              'allow-none', 'optional', 'closure', 'destroy', 'skip', 'introspectable', 'throws', 'transfer-ownership',
              'version', 'deprecated-version', 'stability', 'scope', 'filename', 'line', 'column', 'value', 'invoker',
-             'c:identifier', 'shadows', 'shadowed-by', 'moved-to', 'foreign']
+             'c:identifier', 'shadows', 'shadowed-by', 'moved-to', 'foreign', 'when', 'no-recurse', 'detailed', 'action',
+             'no-hooks', 'emitter', 'c:type', 'glib:finish-func']
     if op == 'setval' and x['attrs']:
         i = rng.randrange(len(x['attrs']))
         x['attrs'][i][1] = rng.choice(vals)
@@ -2383,10 +2407,15 @@ def scanned_callables(m, ns, canon):
             add(f, 'function', 'function')
         for f in getattr(n, 'virtual_methods', []):
             add(f, 'vfunction', 'virtual-method')
+        for f in getattr(n, 'signals', []):
+            add(f, 'signal', 'glib:signal')
         for fld in getattr(n, 'fields', []):
             an = getattr(fld, 'anonymous_node', None)
             if isinstance(an, ast.Callback):
+                n0 = len(out)
                 add(an, 'callback', 'callback')
+                if len(out) > n0:
+                    out[-1]['anonymous'] = True
             elif an is not None:
                 funcs(an)
     for n in ns.values():
@@ -2876,9 +2905,12 @@ def _run(ctx, cnt, rng, fast):
                 'attributes toggled at random, doc text with tabs, & < > quotes, leading/trailing spaces, non-ASCII, '
                 'several paragraphs); each judged by w1==w2==w3 through GIRParser+GIRWriter (= scannermain.passthrough_gir) '
                 'and Transformer.parse_from_gir+GIRWriter, plus an AST walk written-vs-read and read-vs-reread. '
-                'fragments: generated callables (types, parameters, docs) written and read by the real code and by the '
-                'Lean model, plus two perturbed (malformed) variants of every written element. non-trivial = namespace '
-                'has nodes / callable has parameters; distinct by content hash.',
+                'fragments: generated callables incl. signals (types, parameters, docs) and generated member lists of '
+                'records / unions (typed fields with array lengths, callback fields, anonymous struct / union members) '
+                'written and read by the real code and by the Lean model, plus perturbed (malformed) variants of every '
+                'written element; the field lists and callables of every scanned namespace are checked against the '
+                'theorems\' side conditions. non-trivial = namespace has nodes / callable has parameters / more than one '
+                'member; distinct by content hash.',
         'samples': samples,
         'distribution': cnt.counts,
         'corpus_cases': len(corpus),
@@ -2892,7 +2924,12 @@ def _run(ctx, cnt, rng, fast):
     })
     ctx.assumptions.extend([
         'whole-file byte identity is VALIDATED on the real code (sampling), not proved; the theorems cover the XML-tree '
-        'fragment written through GIRWriter._write_type/_write_parameter/_write_return_type/_write_callable/_write_generic',
+        'fragment written through GIRWriter._write_type/_write_parameter/_write_return_type/_write_callable/_write_signal/'
+        '_write_generic and, for records / unions, _write_field (the CONTENT of an anonymous struct / union member is not '
+        'modelled: it goes through _write_record / _parse_compound again)',
+        'scanpipe.build_type puts FUNCTION_INLINE on the function type; the real parser puts it on the return type, where '
+        'Transformer._create_function looks: harness/c07.py wraps scanpipe.build_type at run time so that generated '
+        'namespaces contain function-inline / method-inline (scanpipe.py itself is not edited)',
         'AST walk canonicalisation (what a GIR cannot carry): ctype = complete_ctype or ctype; direction None = in; '
         'nullable = nullable and not not_nullable; caller_allocates only for non-in; node introspectable = introspectable '
         'and not skip; empty optional strings = None; line numbers as text; file names relative to the source roots; only '
